@@ -6,8 +6,7 @@ import (
 	"fmt"
 	"net"
 	"os"
-	"sort"
-	"strconv"
+		"strconv"
 	"strings"
 	"testing"
 	"time"
@@ -36,6 +35,8 @@ type World struct {
 	sinks     map[string]*simnet.TCPListener
 	udpActors map[string]*simnet.UDPSock
 	OnDeliver func(d *Delivery)
+	decoded   []*Emitted
+	sinkEnds  map[int]*simnet.TCPEnd // connection id -> the party's end of a connection the proxy opened
 }
 
 // Delivery is a message (or raw bytes) that reached a simulated party.
@@ -262,6 +263,10 @@ func (w *World) TCPSink(addr string) *simnet.TCPListener {
 	a := udpAddr(addr)
 	l := w.N.ActorListen(a.IP.String(), a.Port, func(end *simnet.TCPEnd) {
 		w.attachRecorder(end, addr)
+		if w.sinkEnds == nil {
+			w.sinkEnds = map[int]*simnet.TCPEnd{}
+		}
+		w.sinkEnds[end.ID] = end
 	})
 	w.sinks[addr] = l
 	return l
@@ -296,10 +301,11 @@ func (w *World) TCPConnTo(label, srcIP string, srcPort int, dst string) (*simnet
 
 // Emitted is a decoded emission of the proxy.
 type Emitted struct {
-	E   *simnet.Emission
-	M   *sipwire.Msg
-	Err error
-	ID  string
+	E    *simnet.Emission
+	M    *sipwire.Msg
+	Err  error
+	ID   string
+	skip bool
 }
 
 const simIDHeader = "x-sim-id"
@@ -311,49 +317,33 @@ func msgID(m *sipwire.Msg) string {
 	return ""
 }
 
-// decodeEmissions parses every UDP emission as one message and every TCP
-// connection's written stream as a sequence of messages.
+// decodeEmissions parses every emission (one datagram / one TCP write = one
+// message: the proxy serialises with Bytes()). Decoding is incremental.
 func (w *World) decodeEmissions(from int) []*Emitted {
-	var out []*Emitted
-	tcpStreams := map[int][]*simnet.Emission{}
-	var order []int
-	for _, e := range w.N.Emissions[from:] {
-		if e.Proto == "udp" {
-			m, rest, err := sipwire.Parse(e.Data)
-			em := &Emitted{E: e, M: m, Err: err}
-			if err == nil && len(rest) > 0 {
-				em.Err = fmt.Errorf("%d trailing bytes after the message in one datagram", len(rest))
-			}
-			if m != nil {
-				em.ID = msgID(m)
-			}
-			out = append(out, em)
+	for i := len(w.decoded); i < len(w.N.Emissions); i++ {
+		e := w.N.Emissions[i]
+		em := &Emitted{E: e}
+		if e.Proto == "tcp" && e.Err != "" && len(e.Data) == 0 {
+			em.skip = true
+			w.decoded = append(w.decoded, em)
 			continue
 		}
-		if _, ok := tcpStreams[e.ConnID]; !ok {
-			order = append(order, e.ConnID)
+		m, rest, err := sipwire.Parse(e.Data)
+		em.M, em.Err = m, err
+		if err == nil && len(rest) > 0 {
+			em.Err = fmt.Errorf("%d trailing bytes after the message in one datagram/write", len(rest))
 		}
-		tcpStreams[e.ConnID] = append(tcpStreams[e.ConnID], e)
+		if m != nil {
+			em.ID = msgID(m)
+		}
+		w.decoded = append(w.decoded, em)
 	}
-	for _, id := range order {
-		// each write of the proxy is one message (it serialises with Bytes());
-		// parse write by write so that an emission keeps its step and endpoint
-		for _, e := range tcpStreams[id] {
-			if e.Err != "" && len(e.Data) == 0 {
-				continue
-			}
-			m, rest, err := sipwire.Parse(e.Data)
-			em := &Emitted{E: e, M: m, Err: err}
-			if err == nil && len(rest) > 0 {
-				em.Err = fmt.Errorf("%d trailing bytes after the message in one write", len(rest))
-			}
-			if m != nil {
-				em.ID = msgID(m)
-			}
+	var out []*Emitted
+	for _, em := range w.decoded[from:] {
+		if !em.skip {
 			out = append(out, em)
 		}
 	}
-	sort.SliceStable(out, func(i, j int) bool { return out[i].E.Seq < out[j].E.Seq })
 	return out
 }
 
